@@ -243,6 +243,21 @@ func init() {
 					seenN["sl"+term] = true
 					out.Add("subjlen", Case{Coq: term, Tag: tag, Desc: map[string]interface{}{"object": what}})
 				}
+				// the Tor service descriptor lint (Kernels/Tor.v)
+				if term, tag, ok := torCase(c); ok && !seenN["tor"+term] {
+					seenN["tor"+term] = true
+					out.Add("tor", Case{Coq: term, Tag: tag, Desc: map[string]interface{}{"object": what, "cn": c.Subject.CommonName, "dns": c.DNSNames, "descriptors": len(c.TorServiceDescriptors)}})
+				}
+				// the fifteen lints over the AIA / CDP URL lists (Kernels/Urls.v)
+				if term, tag, ok := urlCase(c); ok && !seenN["url"+term] {
+					seenN["url"+term] = true
+					out.Add("urls", Case{Coq: term, Tag: tag, Desc: map[string]interface{}{"object": what, "ocsp": c.OCSPServer, "issuers": c.IssuingCertificateURL, "cdp": c.CRLDistributionPoints}})
+				}
+				// the twenty-three subject-attribute presence lints (Kernels/SubjPresence.v)
+				if term, tag, ok := presenceCase(c); ok && !seenN["pres"+term] {
+					seenN["pres"+term] = true
+					out.Add("presence", Case{Coq: term, Tag: tag, Desc: map[string]interface{}{"object": what, "subject": c.Subject.String()}})
+				}
 				// the four lints that relate the common name(s) to the SAN entries (Kernels/CnSan.v)
 				if term, tag, ok := cnSanCase(c); ok && !seenN["cnsan"+term] {
 					seenN["cnsan"+term] = true
@@ -251,8 +266,18 @@ func init() {
 			}
 			for _, zc := range certZoo() {
 				switch zc.Class {
-				case "name", "related-names", "many-san", "tld", "extension", "ku-eku", "own-key", "subject", "subject-repeat", "name-constraints":
+				case "name", "related-names", "many-san", "tld", "extension", "ku-eku", "own-key", "subject", "subject-repeat", "name-constraints", "tor", "aia", "policies", "smime-mail":
 					addN(zc.Cert, zc.File)
+				}
+			}
+			// the two raw walkers e_ext_san_empty_name / e_ext_ian_empty_name with the DER reader under them (Kernels/Der.v)
+			for _, v := range derValues(rng) {
+				term, tag := derCase(v)
+				out.Add("der", Case{Coq: term, Tag: tag, Desc: map[string]interface{}{"value": hexs(v)}})
+			}
+			for i, der := range urlCerts(rng) {
+				if c, err := safeParseCert(der); err == nil {
+					addN(c, fmt.Sprintf("URL list probe %d", i))
 				}
 			}
 			for i, der := range subjLenCerts() {
